@@ -19,6 +19,7 @@ from acnportal.acnsim import (
     EVSE,
     Battery,
     ChargingNetwork,
+    Event,
     Current,
     DeadbandEVSE,
     EventQueue,
@@ -116,6 +117,13 @@ def build_network(spec, cls=ChargingNetwork, station_order=None, constraint_orde
         cons = [cons[i] for i in constraint_order]
     for c in cons:
         net.add_constraint(Current(dict(c["coeffs"])), c["limit"], name=c["name"])
+    if spec.get("pre_unplug"):
+        # "free every station before use", written with the old one-argument form
+        with warnings.catch_warnings():
+            warnings.simplefilter("ignore")
+            for sid in list(net.station_ids):
+                for _ in range(int(spec["pre_unplug"])):
+                    net.unplug(sid)
     return net
 
 
@@ -151,6 +159,8 @@ def build_events(spec, evs, shift=0, order=None):
     # explicit departures ahead of the session's own departure (the simulator's own unplug event
     # at ev.departure then finds the EV gone)
     events += [UnplugEvent(u["t"] + shift, evs[u["session"]]) for u in spec.get("early_unplugs", [])]
+    # plain Event objects (no type): they are popped and logged in their period but ask for nothing
+    events += [Event(t + shift) for t in spec.get("inert", [])]
     order = spec.get("event_order") if order is None else order
     if order:
         idx = [i for i in order if i < len(events)]
@@ -161,7 +171,14 @@ def build_events(spec, evs, shift=0, order=None):
         # the queue object has been asked about a late period before (it was empty then)
         q.get_current_events(int(spec["queue_preused"]))
     # half of the specs use add_events, the other half one add_event per event
-    if spec.get("bulk_add", True):
+    how = spec.get("bulk_add", True)
+    if how == "mixed":
+        # some events one by one (in the generated, non-chronological order), the rest in one batch
+        k = max(1, len(events) // 3)
+        for e in events[:k]:
+            q.add_event(e)
+        q.add_events(events[k:])
+    elif how:
         q.add_events(events)
     else:
         for e in events:
@@ -241,6 +258,8 @@ class Scripted(BaseAlgorithm):
         self.before_malformed = None
         self.by_calls = False
         self.ncalls = 0
+        self.reuse_dict = False
+        self._out = {}
 
     def schedule(self, active_sessions):
         t = self.interface.current_time
@@ -264,6 +283,14 @@ class Scripted(BaseAlgorithm):
             if self.probe and len(out) and not self.interface.is_feasible(out):
                 # a scheduler steering by the interface's feasibility answer (as in the tutorials)
                 out = {k: [0.0] * len(v) for k, v in out.items()}
+        if self.reuse_dict:
+            # a scheduler that refills ONE mapping object call after call
+            self._out.clear()
+            self._out.update(out)
+            self.submitted[t] = {k: list(v) for k, v in out.items()}
+            if self.post is not None:
+                self.post(self, active_sessions, self._out)
+            return self._out
         self.submitted[t] = out
         if self.post is not None:
             self.post(self, active_sessions, out)
@@ -345,6 +372,7 @@ def make_scheduler(spec, observer=None, crash_at=None, shift=0):
         a = Scripted(sch["table"], sch.get("max_recompute"), observer, crash_at, shift)
         a.probe = bool(sch.get("probe"))
         a.by_calls = bool(sch.get("by_calls"))
+        a.reuse_dict = bool(sch.get("reuse_dict"))
         return a
     return Wrapped(make_inner(sch), observer, crash_at)
 
@@ -371,17 +399,20 @@ def build_sim(spec, observer=None, crash_at=None, shift=0, net_cls=ChargingNetwo
         period=spec["period"],
         signals=signals,
         store_schedule_history=bool(spec.get("store_history")),
-        verbose=False,
+        verbose=bool(spec.get("verbose")),
     )
     return Handle(spec, sim, net, evs, scheduler)
 
 
 def run_sim(h):
     """Run with the battery noise fed from the spec."""
+    import contextlib
+    import io
+
     orig = np.random.normal
     np.random.normal = h.feed
     try:
-        with warnings.catch_warnings():
+        with warnings.catch_warnings(), contextlib.redirect_stdout(io.StringIO()):
             warnings.simplefilter("ignore")
             h.sim.run()
     finally:
@@ -391,7 +422,7 @@ def run_sim(h):
 
 # -------------------------------------------------------------------------- reference model
 
-PREC = {"Unplug": 0, "Plugin": 10, "Recompute": 20}
+PREC = {"Unplug": 0, "Plugin": 10, "Recompute": 20, "": float("inf")}
 
 
 class Model:
@@ -411,9 +442,12 @@ class Model:
         self.early = {u["session"]: u["t"] for u in spec.get("early_unplugs", [])}
         for sid, t in self.early.items():
             ev.append((t + shift, PREC["Unplug"], "Unplug", sid))
+        for t in spec.get("inert", []):
+            ev.append((t + shift, PREC[""], "", None))
         self.events = sorted(ev, key=lambda e: (e[0], e[1]))
         self.last = max(e[0] for e in self.events) if self.events else None
-        self.event_times = {e[0] for e in self.events}
+        # a plain Event is handled in its period but does not ask for a new schedule
+        self.event_times = {e[0] for e in self.events if e[2] != ""}
         self.max_recompute = spec["scheduler"].get("max_recompute") if spec["scheduler"]["kind"] == "scripted" else spec["scheduler"].get("max_recompute", 1)
         self.invocations = []
         last = None
@@ -552,7 +586,7 @@ def battery_specs(draw, models=("ideal", "cont", "step"), noise=True, fill=True)
 
 
 @st.composite
-def session_lists(draw, stations, max_per_station=3, window=6, max_stay=5, energies=(0.02, 0.5, 3.0, 12.0, 60.0), batteries=None, min_sessions=1):
+def session_lists(draw, stations, max_per_station=3, window=6, max_stay=5, energies=(0.02, 0.5, 3.0, 12.0, 60.0), batteries=None, min_sessions=1, zero_energy=False):
     sessions = []
     k = 0
     batteries = battery_specs() if batteries is None else batteries
@@ -569,7 +603,7 @@ def session_lists(draw, stations, max_per_station=3, window=6, max_stay=5, energ
                 "station": s["id"],
                 "arrival": a,
                 "departure": d,
-                "energy": draw(st.sampled_from(list(energies))),
+                "energy": 0.0 if (zero_energy and draw(st.integers(0, 9)) == 0) else draw(st.sampled_from(list(energies))),
                 "est_departure": None if est is None else max(a + 1, d + est),
                 "battery": draw(batteries),
             }
@@ -657,6 +691,7 @@ def scenarios(
     max_per_station=3,
     sched_max_len=4,
     unlimited=True,
+    extras=True,
 ):
     n = draw(st.integers(1, max_stations))
     ids = list(draw(st.permutations(STATION_POOL)))[:n]
@@ -678,9 +713,10 @@ def scenarios(
         # current in every period in which it is connected
         batteries = st.just({"model": "ideal", "cap": 1e6, "init": 0.0, "maxp": 1e3})
         energies = (1e5,)
-    sessions = draw(session_lists(stations, max_per_station=max_per_station, window=window, energies=energies, batteries=battery_specs(noise=noise) if batteries is None else batteries))
+    sessions = draw(session_lists(stations, max_per_station=max_per_station, window=window, energies=energies, batteries=battery_specs(noise=noise) if batteries is None else batteries, zero_energy=extras and sched_kind != "always_max"))
     last = max(s["departure"] for s in sessions)
     recomputes = draw(st.lists(st.integers(0, last + 3), max_size=3))
+    inert = draw(st.lists(st.integers(0, last + 2), max_size=2)) if extras and draw(st.integers(0, 4)) == 0 else []
     if sched_kind == "scripted":
         sch = draw(scripted_schedulers(stations, max_len=sched_max_len))
     elif sched_kind == "always_max":
@@ -689,19 +725,27 @@ def scenarios(
         sch = {"kind": "uncontrolled", "max_recompute": draw(st.sampled_from([1, 1, None, 2]))}
     else:
         sch = draw(sorted_schedulers(mr=(1, 1, 1, None, 2)))
-    nev = len(sessions) + len(recomputes)
+    if sched_kind == "scripted" and draw(st.integers(0, 3)) == 0:
+        sch["reuse_dict"] = True
+    nev = len(sessions) + len(recomputes) + len(inert)
     return {
         "period": draw(PERIODS),
-        "start": "2020-03-01T08:00:00",
+        # mostly an ordinary morning; sometimes the last evening of a month / year / February
+        "start": draw(st.sampled_from(["2020-03-01T08:00:00"] * 4 + ["2021-04-30T22:00:00", "2020-12-31T23:15:00", "2020-02-29T23:30:00"])) if extras else "2020-03-01T08:00:00",
+        "inert": inert,
+        "verbose": extras and draw(st.integers(0, 5)) == 0,
+        "pre_unplug": draw(st.sampled_from([0, 0, 0, 1, 3])) if extras else 0,
         "stations": stations,
         "constraints": cons,
         "sessions": sessions,
         "recomputes": recomputes,
         "event_order": list(draw(st.permutations(range(nev)))),
-        "bulk_add": draw(st.booleans()),
+        "bulk_add": draw(st.sampled_from([True, False, "mixed"])),
         "scheduler": sch,
         "zs": draw(st.lists(st.sampled_from([0.0, 0.3, -0.3, 1.0, -1.0, 3.0, -3.0]), min_size=1, max_size=6)),
-        "store_history": draw(st.booleans()),
+        # the simulator keeps the returned mapping object itself in schedule_history, so a scheduler
+        # that refills one mapping rewrites its own history: not combined (DESIGN.md 8.5d)
+        "store_history": draw(st.booleans()) and not sch.get("reuse_dict"),
         "queue_preused": draw(st.sampled_from([None, None, None, 50])),
     }
 
@@ -742,4 +786,18 @@ def scenario_labels(spec):
         labels.add("fractional_period")
     if len(spec["stations"]) >= 8:
         labels.add("large_site_numbered_ids")
+    if spec.get("inert"):
+        labels.add("inert_events")
+    if spec.get("verbose"):
+        labels.add("verbose_simulator")
+    if spec.get("pre_unplug"):
+        labels.add("stations_freed_with_one_argument_unplug")
+    if any(x["energy"] == 0 for x in spec["sessions"]):
+        labels.add("zero_energy_session")
+    if spec.get("start", "2020-03-01T08:00:00") != "2020-03-01T08:00:00":
+        labels.add("start_on_last_evening_of_a_month")
+    if spec["scheduler"].get("reuse_dict"):
+        labels.add("scheduler_refills_one_mapping")
+    if spec.get("bulk_add") == "mixed":
+        labels.add("events_added_singly_and_in_bulk")
     return labels
